@@ -16,10 +16,10 @@ def BV(w, v):
 
 class Ptr:
     """pointer into shared memory: object root, static path of field numbers / '*' (box contents), optional array index term"""
-    __slots__ = ("root", "path", "idx")
+    __slots__ = ("root", "path", "idx", "sub")
 
-    def __init__(self, root, path=(), idx=None):
-        self.root, self.path, self.idx = root, tuple(path), idx
+    def __init__(self, root, path=(), idx=None, sub=()):
+        self.root, self.path, self.idx, self.sub = root, tuple(path), idx, tuple(sub)
 
     def ext(self, k):
         if self.idx is not None:
@@ -30,7 +30,7 @@ class Ptr:
         return (self.root, self.path)
 
     def __repr__(self):
-        return "Ptr(%s,%s,%s)" % (self.root, self.path, self.idx)
+        return "Ptr(%s,%s,%s%s)" % (self.root, self.path, self.idx, (",sub=%s" % (self.sub,)) if self.sub else "")
 
 
 class LRef:
@@ -54,6 +54,27 @@ class Enum:
 
     def __init__(self, adt, discr, payloads):
         self.adt, self.discr, self.payloads = adt, discr, payloads
+
+
+def waker_of(task):
+    return Agg("Waker", [task])
+
+
+def decode_cell(codec, raw):
+    """shared cells that hold an enum are stored as small integers; `codec` says how to read them back"""
+    if codec == "opt_waker":      # 0 = None, task + 1 = Some(waker of that task)
+        return Enum("Option", z3.If(raw != 0, BV(64, 1), BV(64, 0)), {1: [waker_of(raw - 1)]})
+    raise EncodingError("codec " + str(codec))
+
+
+def encode_cell(codec, val):
+    if codec == "opt_waker":
+        if isinstance(val, Enum) and val.adt == "Option":
+            some = val.discr == 1
+            w = val.payloads[1][0].fields[0] if 1 in val.payloads else BV(8, 0)
+            return z3.If(some, w + 1, BV(8, 0))
+        if isinstance(val, Agg) and val.kind == "Waker": return val.fields[0] + 1
+    raise EncodingError("cannot encode %s with codec %s" % (sx(val), codec))
 
 
 VARIANTS = {"Option": {"None": 0, "Some": 1}, "Result": {"Ok": 0, "Err": 1},
@@ -92,12 +113,18 @@ def strip_generics(s):
 def sx(v):
     """structural print of a value (used in graph node keys)"""
     if isinstance(v, z3.ExprRef): return v.sexpr()
-    if isinstance(v, Ptr): return "P(%s,%s,%s)" % (v.root, v.path, sx(v.idx))
+    if isinstance(v, Ptr): return "P(%s,%s,%s,%s)" % (v.root, v.path, sx(v.idx), v.sub)
     if isinstance(v, LRef): return "L(%d,%s,%s)" % (v.depth, v.name, v.proj)
     if isinstance(v, Agg): return "A(%s,%s,[%s])" % (v.kind, v.fn.name if v.fn else "", ",".join(sx(x) for x in v.fields))
     if isinstance(v, Enum): return "E(%s,%s,{%s})" % (v.adt, sx(v.discr), ",".join("%s:[%s]" % (k, ",".join(sx(x) for x in p)) for k, p in sorted(v.payloads.items())))
     if isinstance(v, (tuple, list)): return "(" + ",".join(sx(x) for x in v) + ")"
     return repr(v)
+
+
+class NeedLoad(Exception):
+    """an operand of the current statement reads a shared location: the read must become a visible operation first"""
+    def __init__(self, ptr, cachekey):
+        self.ptr, self.cachekey = ptr, cachekey
 
 
 class Frame:
@@ -168,12 +195,14 @@ class Interp:
         if tok in ("true", "false"): return z3.BoolVal(tok == "true")
         m = re.match(r"^(-?\d+)_(\w+)$", tok)
         if m and m.group(2) in WIDTH: return BV(WIDTH[m.group(2)], int(m.group(1)))
-        if tok in self.consts: return BV(64, self.consts[tok])
+        if tok in self.consts:
+            cv = self.consts[tok]
+            return z3.BoolVal(cv) if isinstance(cv, bool) else BV(64, cv)
         if tok == "()": return UNIT
         m = re.match(r"^ZeroSized: \{closure@(.*)\}$", tok)
         if m: return Agg("closure", [], self.ix.closure(m.group(1)))
         if tok.startswith('"') or tok.startswith("b\""): return ("str", tok)
-        m = re.match(r"^(u8|u16|u32|u64|usize)::MAX$", tok)
+        m = re.match(r"^(?:core::num::<impl )?(u8|u16|u32|u64|usize)>?::MAX$", tok)
         if m: return BV(WIDTH[m.group(1)], (1 << WIDTH[m.group(1)]) - 1)
         m = re.match(r"^(-?[0-9.]+(?:[eE][-+]?\d+)?)f32$", tok)
         if m:
@@ -186,7 +215,18 @@ class Interp:
         o = o.strip()
         if o.startswith("no_retag "): o = o[9:]
         if o.startswith("copy ") or o.startswith("move "):
-            return self.read_place(st, parse_place(o[5:]), None)
+            v = self.read_place(st, parse_place(o[5:]), None)
+            if isinstance(v, tuple) and v and v[0] == "memread":
+                p = v[1]
+                d = self.mem.get(p.key())
+                if d is None:
+                    if p.idx is not None: raise EncodingError("read of undeclared array element " + repr(p))
+                    return Ptr(p.root, p.path + ("*",))
+                fr = st.frames[-1]
+                ck = "__mr:%s:%d:%s" % (fr.bb, fr.i, o[5:])
+                if ck in fr.loc: return fr.loc[ck]
+                raise NeedLoad(p, ck)
+            return v
         if o.startswith("const "): return self.const(o[6:], st.frames[-1])
         raise EncodingError("operand: " + o)
 
@@ -200,14 +240,20 @@ class Interp:
             v = self.read_place(st, ast[1], None)
             if isinstance(v, Ptr): return ("mem", v)
             if isinstance(v, LRef): return ("local", v.depth, v.name, v.proj)
+            if isinstance(v, Agg) and v.kind in ("Context", "Waker"):      # harness stand-ins passed by value where the code takes a reference
+                return self.eval_place(st, ast[1])
             raise EncodingError("deref of non-pointer value %s in %s" % (sx(v), ast))
         if k == "field":
             b = self.eval_place(st, ast[1])
+            if b[0] == "mem" and b[1].sub:
+                p = b[1]; return ("mem", Ptr(p.root, p.path, p.idx, p.sub + (ast[2],)))
             if b[0] == "mem": return ("mem", b[1].ext(ast[2]))
             return ("local", b[1], b[2], b[3] + (ast[2],))
         if k == "downcast":
             b = self.eval_place(st, ast[1])
-            if b[0] == "mem": raise EncodingError("downcast of a shared-memory place: %s" % (ast,))
+            if b[0] == "mem":
+                p = b[1]
+                return ("mem", Ptr(p.root, p.path, p.idx, p.sub + (("variant", ast[2]),)))
             return ("local", b[1], b[2], b[3] + (("variant", ast[2]),))
         if k == "index":
             b = self.eval_place(st, ast[1])
@@ -277,6 +323,18 @@ class Interp:
         fr.loc[name] = upd(fr.loc.get(name), proj)
 
     # ------------------------------------------------------------------ rvalues
+    @staticmethod
+    def float_op(op, a, b):
+        """f32 values are carried as 32-bit words; arithmetic is ABSTRACTED by cheap bit-vector mixing functions (stated in the
+        evidence): the queries that go through floats only claim things that do not depend on the numeric values"""
+        rot = lambda x, n: z3.RotateLeft(x, n)
+        if op == "Add": return a + b
+        if op == "Sub": return a - b
+        if op == "Mul": return (a + (a << 1)) ^ rot(b, 7)
+        if op == "Div": return rot(a, 3) + (b + (b << 2)) + 1
+        if op in ("Eq", "Ne"): return (a == b) if op == "Eq" else (a != b)
+        raise EncodingError("float operator %s is not abstracted" % op)
+
     def binop(self, op, a, b, signed):
         if z3.is_bool(a) and z3.is_bool(b):
             return {"Eq": lambda: a == b, "Ne": lambda: a != b, "BitAnd": lambda: z3.And(a, b), "BitOr": lambda: z3.Or(a, b),
@@ -321,7 +379,11 @@ class Interp:
         if m:
             ops = split_top(m.group(2))
             a, b = [self.operand(st, x) for x in ops]
-            signed = self.is_signed(self.operand_type(fr, ops[0])) or self.is_signed(self.operand_type(fr, ops[1]))
+            t0_, t1_ = self.subst_type(self.operand_type(fr, ops[0])), self.subst_type(self.operand_type(fr, ops[1]))
+            if t0_ == "f32" or t1_ == "f32" or ops[0].strip().endswith("f32") or ops[1].strip().endswith("f32"):
+                self.intrinsics_used.add("f32 arithmetic ABSTRACTED by bit-vector mixing functions (values are not IEEE)")
+                return self.float_op(m.group(1), a, b)
+            signed = self.is_signed(t0_) or self.is_signed(t1_)
             return self.binop(m.group(1).replace("Unchecked", ""), a, b, signed)
         m = re.match(r"^(Not|Neg)\((.*)\)$", r)
         if m:
@@ -343,7 +405,8 @@ class Interp:
             if kind in ("PtrToPtr", "Transmute", "PointerCoercion", "PointerExposeProvenance", "PointerWithExposedProvenance"):
                 return v
             if kind == "IntToFloat":
-                return ("uf", "int_to_f32", v)
+                if v.size() == 32: return v
+                return z3.Extract(31, 0, v) if v.size() > 32 else z3.ZeroExt(32 - v.size(), v)
             raise EncodingError("cast kind %s: %s" % (kind, r))
         m = re.match(r"^&(?:mut |raw mut |raw const )?(.*)$", r)
         if m and not r.startswith("&&"):
@@ -354,6 +417,8 @@ class Interp:
         m = re.match(r"^discriminant\((.*)\)$", r)
         if m:
             v = self.read_place(st, parse_place(m.group(1)), None)
+            if isinstance(v, tuple) and v and v[0] == "memread":
+                v = self.load_cell(st, v[1], "discr:" + m.group(1))
             if isinstance(v, Enum): return v.discr
             raise EncodingError("discriminant of " + sx(v))
         m = re.match(r"^(\w+)::<.*?>::(\w+)\((.*)\)$", r)      # enum variant constructor with positional fields: Option::<T>::Some(x)
@@ -411,6 +476,9 @@ class Interp:
         if m: return self.ix.method(m.group(2), m.group(1))
         m = re.match(r"^<(.*) as (.*)>::(\w+)(?:::<.*>)?$", callee, re.S)
         if m:
+            mapped = self.types.get(m.group(1).strip())
+            if mapped and mapped.startswith("@"):            # type parameter bound to "the type defined in this file"
+                return self.ix.method(m.group(3), mapped[1:])
             tn = self.resolve_type_name(m.group(1))
             fh = self.type_files.get(tn)
             if fh is None: return None
@@ -446,12 +514,21 @@ class Interp:
         m = re.match(r"^<(.*) as (?:std::ops::)?(Deref|DerefMut)>::(deref|deref_mut)$", callee, re.S)
         if m:
             tn = self.resolve_type_name(m.group(1))
-            if tn in ("CachePadded", "ManuallyDrop", "Arc"):
+            if tn in ("CachePadded", "ManuallyDrop"):
                 used("%s::deref" % tn); return ("val", a(0))
+            if tn == "Arc":
+                v = a(0); used("Arc::deref")
+                if isinstance(v, Ptr):
+                    d = self.mem.get(v.key())
+                    if d is not None and d["kind"] == "frozen": return ("val", d["value"])      # an Arc stored in memory: its pointee
+                return ("val", v)
             if tn in ("Pin", "Box"):
-                # deref of a (pinned) Box stored in shared memory: pointer to its contents
-                v = a(0); used("%s<Box>::deref" % tn)
-                if isinstance(v, Ptr) and v.idx is None: return ("val", Ptr(v.root, v.path + ("*",)))
+                v = a(0); used("%s::deref" % tn)
+                if "Box" in m.group(1):
+                    # deref of a (pinned) Box stored in shared memory: pointer to its contents
+                    if isinstance(v, Ptr) and v.idx is None: return ("val", Ptr(v.root, v.path + ("*",)))
+                    return ("val", v)
+                if isinstance(v, LRef): return ("val", self.project(st.frames[v.depth].loc[v.name], v.proj))     # &Pin<&mut T> -> &T
                 return ("val", v)
         if re.search(r"UnsafeCell(::<.*>)?::(get|raw_get|get_mut)$", callee, re.S): used("UnsafeCell::get"); return ("val", a(0))
         if re.search(r"NonNull(::<.*>)?::(as_ref|as_mut)", callee, re.S):
@@ -505,6 +582,7 @@ class Interp:
             if isinstance(p, LRef): return ("val", self.project(st.frames[p.depth].loc[p.name], p.proj))
             d = self.memdecl(p, "ptr::read"); used("ptr::read -> plain load")
             return ("vis", ("pload", p.key(), p.idx))
+        if re.search(r"<impl f32>::(from_bits|to_bits)$", c): used("f32::from_bits/to_bits"); return ("val", a(0))
         if re.search(r"needs_drop$", c):
             used("mem::needs_drop (per-instantiation constant)"); return ("val", z3.BoolVal(bool(self.cfg.get("needs_drop", False))))
         if last in ("spin_loop",) or c.endswith("hint::spin_loop"): used("hint::spin_loop"); return ("val", UNIT)
@@ -547,6 +625,10 @@ class Interp:
         if m:
             adt, meth = m.group(1), m.group(2)
             v = a(0)
+            if isinstance(v, Ptr) and meth == "insert":
+                d = self.memdecl(v, "Option::insert"); used("Option::insert into a shared cell -> plain store")
+                fr.loc["__insret"] = Ptr(v.root, v.path, v.idx, (("variant", "Some"), 0))
+                return ("vis", ("pstore", v.key(), v.idx, encode_cell(d.get("codec"), opt_some(a(1)))), "__insret")
             if isinstance(v, LRef): v = self.project(st.frames[v.depth].loc[v.name], v.proj)
             if not isinstance(v, Enum): raise EncodingError("%s::%s on %s" % (adt, meth, sx(v)))
             some = v.discr == (1 if adt == "Option" else 0)
@@ -568,17 +650,46 @@ class Interp:
                 return ("fork", alts)
             raise EncodingError("%s::%s not modelled" % (adt, meth))
         # ---- abstract waker (a waker is a task id; waking sets a ghost flag)
-        if re.search(r"(^|::)Waker::wake_by_ref$", c): used("Waker::wake_by_ref -> ghost wake(task)"); return ("vis", ("wake", a(0)))
+        if re.search(r"(^|::)Waker::wake_by_ref$", c):
+            w_ = a(0); used("Waker::wake_by_ref -> ghost wake(task)")
+            if isinstance(w_, Ptr) and w_.sub:      # through a reference into the shared wakers array: the cell is read at wake time
+                return ("vis", ("wake_cell", w_.key(), w_.idx))
+            return ("vis", ("wake", self.waker_id(st, w_)))
+        if re.search(r"(^|::)Context(::<.*>)?::waker$", callee, re.S):
+            cx = a(0); used("Context::waker")
+            if isinstance(cx, LRef): cx = self.project(st.frames[cx.depth].loc[cx.name], cx.proj)
+            if isinstance(cx, Agg) and cx.kind == "Context": return ("val", cx.fields[0])
+            raise EncodingError("Context value expected, got " + sx(cx))
+        if c == "__verif::park":
+            cx = a(0); used("executor model: park until woken")
+            if isinstance(cx, LRef): cx = self.project(st.frames[cx.depth].loc[cx.name], cx.proj)
+            return ("vis", ("park", cx.fields[0].fields[0]))
         if re.search(r"Waker as Clone>::clone$", c) or re.search(r"(^|::)Waker::clone$", c): used("Waker::clone"); return ("val", a(0))
         if re.search(r"(^|::)Waker::will_wake$", c): used("Waker::will_wake"); return ("val", self.waker_id(st, a(0)) == self.waker_id(st, a(1)))
         # ---- crate functions (inlined by interpretation)
         f = self.crate_fn(callee)
         if f is not None:
+            rd = getattr(self, "redirect", {})
+            for suffix, target in rd.items():
+                if f.name.endswith(suffix):
+                    self.intrinsics_used.add("%s encoded as one retrying compare_exchange(false->true) (its MIR was checked to be exactly such a retry ladder)" % suffix)
+                    f = target; break
             self.functions_used.add(f.name)
             return ("call", f, [a(i) for i in range(len(args))], None)
         raise EncodingError("unknown callee: %s" % callee)
 
+    def load_cell(self, st, p, tag):
+        """value of a shared cell read as part of the CURRENT statement (becomes a visible load first, see NeedLoad)"""
+        fr = st.frames[-1]
+        ck = "__mr:%s:%d:%s" % (fr.bb, fr.i, tag)
+        if ck in fr.loc: return fr.loc[ck]
+        raise NeedLoad(Ptr(p.root, p.path, p.idx), ck)
+
     def waker_id(self, st, w):
+        if isinstance(w, Ptr) and w.sub:          # reference into a shared Option<Waker> cell: read it now
+            cell = self.load_cell(st, w, "waker:%s" % sx(w))
+            if isinstance(cell, Enum) and 1 in cell.payloads: return cell.payloads[1][0].fields[0]
+            raise EncodingError("waker cell value " + sx(cell))
         if isinstance(w, LRef): w = self.project(st.frames[w.depth].loc[w.name], w.proj)
         if isinstance(w, Agg) and w.kind == "Waker": return w.fields[0]
         raise EncodingError("waker value expected, got " + sx(w))
@@ -618,21 +729,36 @@ class Interp:
                 lines = fr.fn.blocks.get(fr.bb)
                 if lines is None: raise EncodingError("missing block %s in %s" % (fr.bb, fr.fn.name))
                 line = lines[fr.i]
+                pos = "__mr:%s:%d:" % (fr.bb, fr.i)
+                for kx in [kx for kx in fr.loc if kx.startswith("__mr:") and not kx.startswith(pos)]: del fr.loc[kx]
+                try:
+                    r_ = self.exec_line(st, fr, line, out, work)
+                except NeedLoad as nl:
+                    self.memdecl(nl.ptr, "plain load")
+                    out.append(("vis", st, ("pload", nl.ptr.key(), nl.ptr.idx), ("local", nl.cachekey), None)); break
+                if r_ == "break": break
+                continue
+        return out
+
+    def exec_line(self, st, fr, line, out, work):
+        """executes one MIR statement/terminator of the top frame; returns 'break' when the path ended, else 'continue'"""
+        if True:
+            if True:
                 if line.startswith(("StorageLive", "StorageDead", "nop", "FakeRead", "AscribeUserType", "Coverage", "PlaceMention", "Retag", "ConstEvalCounter", "BackwardIncompatibleDropHint")):
-                    fr.i += 1; continue
+                    fr.i += 1; return "continue"
                 m = re.match(r"^goto -> (bb\d+);", line)
-                if m: fr.bb, fr.i = m.group(1), 0; continue
-                if line.startswith("unreachable"): break
-                if line.startswith("resume") or line.startswith("unwind "): break
+                if m: fr.bb, fr.i = m.group(1), 0; return "continue"
+                if line.startswith("unreachable"): return "break"
+                if line.startswith("resume") or line.startswith("unwind "): return "break"
                 if line.startswith("return"):
                     ret = fr.loc.get("_0", UNIT)
                     if isinstance(ret, LRef) and ret.depth == len(st.frames) - 1: raise EncodingError("returning a reference to a local")
                     xf = fr.ret_xform
                     if xf == "wrap_some": ret = opt_some(ret)
                     st.frames.pop()
-                    if not st.frames: out.append(("done", st, ret)); break
+                    if not st.frames: out.append(("done", st, ret)); return "break"
                     caller = st.frames[-1]; dest, nb = fr.ret_to
-                    self.assign(st, dest, ret); caller.bb, caller.i = nb, 0; continue
+                    self.assign(st, dest, ret); caller.bb, caller.i = nb, 0; return "continue"
                 m = re.match(r"^switchInt\((.*?)\) -> \[(.*)\];", line)
                 if m:
                     v = self.operand(st, m.group(1)); targets = split_top(m.group(2))
@@ -645,10 +771,10 @@ class Interp:
                         c = z3.simplify(z3.And(st.pc, c))
                         if z3.is_false(c): continue
                         feas.append((c, bb))
-                    if not feas: break
+                    if not feas: return "break"
                     for c, bb in feas[1:]:
                         s2 = st.clone(); s2.pc = c; s2.frames[-1].bb, s2.frames[-1].i = bb, 0; work.append(s2)
-                    st.pc = feas[0][0]; fr.bb, fr.i = feas[0][1], 0; continue
+                    st.pc = feas[0][0]; fr.bb, fr.i = feas[0][1], 0; return "continue"
                 m = re.match(r"^assert\((!?)(.*?), \"(.*)\) -> \[success: (bb\d+), unwind", line)
                 if m:
                     c = self.operand(st, m.group(2)); c = z3.Not(c) if m.group(1) else c
@@ -656,8 +782,8 @@ class Interp:
                     if not z3.is_false(bad):
                         s2 = st.clone(); s2.pc = bad; out.append(("panic", s2, "assert: " + m.group(3)[:80] + " @ " + fr.fn.name.split(">::")[-1]))
                     st.pc = z3.simplify(z3.And(st.pc, c))
-                    if z3.is_false(st.pc): break
-                    fr.bb, fr.i = m.group(4), 0; continue
+                    if z3.is_false(st.pc): return "break"
+                    fr.bb, fr.i = m.group(4), 0; return "continue"
                 m = re.match(r"^drop\((.*?)\) -> \[return: (bb\d+)", line)
                 if m:
                     pl = self.eval_place(st, parse_place(m.group(1)))
@@ -666,7 +792,7 @@ class Interp:
                     elif pl[0] == "mem": raise EncodingError("drop of a shared-memory place: " + line)
                     r = self.drop_value(st, v)
                     if r[0] != "val": raise EncodingError("drop with effects: " + line)
-                    fr.bb, fr.i = m.group(2), 0; continue
+                    fr.bb, fr.i = m.group(2), 0; return "continue"
                 m = re.match(r"^(.+?) = (.*) -> \[return: (bb\d+)", line)
                 m2 = re.match(r"^(.+?) = (.*) -> unwind", line) if not m else None
                 if m or m2:
@@ -675,15 +801,15 @@ class Interp:
                     callee, args = split_call(mm.group(2))
                     r = self.call(st, callee, args, dest_ast, nb)
                     done = self.apply_call_result(st, r, dest_ast, nb, out, work, line)
-                    if done: break
-                    continue
+                    if done: return "break"
+                    return "continue"
                 m = re.match(r"^(.+?) = (.*);$", line)
                 if m:
                     dest_ast = parse_place(m.group(1))
                     dt = fr.fn.types.get(dest_ast[1]) if dest_ast[0] == "local" else None
                     try:
                         val = self.rvalue(st, m.group(2), dt)
-                    except EncodingError: raise
+                    except (EncodingError, NeedLoad): raise
                     except Exception as e:
                         raise EncodingError("%s while evaluating `%s` in %s" % (e, line[:200], fr.fn.name[-80:]))
                     if isinstance(val, tuple) and val and val[0] == "memread":
@@ -695,15 +821,15 @@ class Interp:
                             if val is None: raise EncodingError("read of undeclared array element " + repr(p))
                         else:
                             fr.i += 1
-                            out.append(("vis", st, ("pload", p.key(), p.idx), dest_ast, None)); break
+                            out.append(("vis", st, ("pload", p.key(), p.idx), dest_ast, None)); return "break"
                     pl = self.eval_place(st, dest_ast)
                     if pl[0] == "mem":
-                        p = pl[1]; self.memdecl(p, "plain store")
+                        p = pl[1]; d_ = self.memdecl(p, "plain store")
+                        if d_.get("codec"): val = encode_cell(d_["codec"], val)
                         fr.i += 1
-                        out.append(("vis", st, ("pstore", p.key(), p.idx, val), None, None)); break
-                    self.write_local(st, pl[1], pl[2], pl[3], val); fr.i += 1; continue
+                        out.append(("vis", st, ("pstore", p.key(), p.idx, val), None, None)); return "break"
+                    self.write_local(st, pl[1], pl[2], pl[3], val); fr.i += 1; return "continue"
                 raise EncodingError("statement: " + line)
-        return out
 
     def assign(self, st, dest_ast, val):
         pl = self.eval_place(st, dest_ast)
@@ -721,6 +847,9 @@ class Interp:
             st.frames.append(Frame(r[1], r[2], (dest_ast, nb), r[3])); return False
         if r[0] == "vis":
             fr.bb, fr.i = nb, 0
+            if len(r) > 2:       # the operation's own result is unit; the call's value was prepared in a scratch local
+                self.assign(st, dest_ast, fr.loc.pop(r[2]))
+                out.append(("vis", st, r[1], None, None)); return True
             out.append(("vis", st, r[1], dest_ast, None)); return True
         if r[0] == "panic":
             out.append(("panic", st, r[1])); return True
